@@ -128,6 +128,7 @@ func (x *Exec) runBlock(fr *frame, b *ssa.BasicBlock, st *State, reach Term, ret
 		case *ssa.Store:
 			addr := x.val(fr, i.Addr)
 			x.nilCheck(fr, addr, reach, i.Pos())
+			x.sinkStore(x.toAddr(addr), x.val(fr, i.Val), reach, x.pos(i.Pos()))
 			x.store(st, x.toAddr(addr), x.val(fr, i.Val))
 		case *ssa.MapUpdate:
 			x.mapUpdate(fr, st, i, reach)
@@ -223,6 +224,22 @@ func (x *Exec) valueInstr(fr *frame, st *State, ins ssa.Value, reach Term) Val {
 		ref := x.alloc(st, t, reach)
 		x.knownNonNil[ref.S] = true
 		x.c.Assume(Not(Eq(ref, BVLit(0, 32))))
+		if arr, ok := arrayOf(t); ok {
+			// a local array: its content survives calls that cannot reach it (see havocEffects)
+			if es := shape(arr.Elem()); len(es) == 1 {
+				// distinct array objects have distinct backing stores
+				nid := x.arrSliceID(t, ref)
+				for _, la := range x.localArrs {
+					if la.key == sliceKey(arr.Elem(), es[0].Path) && la.ref != ref.S && la.base.S != "" {
+						// (injectivity: the two references may denote the same object on
+						// alternative paths, then the stores coincide)
+						x.c.Assume(Imp(Not(Eq(ref, la.base)), Not(Eq(nid, la.id))))
+					}
+				}
+				x.localArrs = append(x.localArrs, localArr{key: sliceKey(arr.Elem(), es[0].Path),
+					srt: SArr(SBV(64), SArr(SBV(64), es[0].Sort)), id: x.arrSliceID(t, ref), ref: ref.S, base: ref})
+			}
+		}
 		return Val{T: i.Type(), L: []Term{ref}}
 	case *ssa.FieldAddr:
 		base := x.val(fr, i.X)
@@ -729,7 +746,7 @@ func (x *Exec) sliceOp(fr *frame, st *State, i *ssa.Slice, reach Term) Val {
 		if hasLo {
 			id = Ite(Eq(lo, BVLit(0, 64)), xv.L[0], x.c.App("subslice", SBV(64), xv.L[0], lo))
 		}
-		return Val{T: i.Type(), L: []Term{id, Op("bvsub", SBV(64), hi, lo), Op("bvsub", SBV(64), xv.L[2], lo)}}
+		return Val{T: i.Type(), L: []Term{id, subLit(hi, lo), subLit(xv.L[2], lo)}}
 	case *types.Pointer: // pointer to array
 		arr := u.Elem().Underlying().(*types.Array)
 		a := x.toAddr(xv)
@@ -761,7 +778,7 @@ func (x *Exec) sliceOp(fr *frame, st *State, i *ssa.Slice, reach Term) Val {
 				}
 			}
 		}
-		return Val{T: i.Type(), L: []Term{id, Op("bvsub", SBV(64), hi, lo), Op("bvsub", SBV(64), n, lo)}}
+		return Val{T: i.Type(), L: []Term{id, subLit(hi, lo), subLit(n, lo)}}
 	}
 	return freshVal(x.c, fr.prefix+"_slice", i.Type())
 }
@@ -933,4 +950,17 @@ func (x *Exec) next(fr *frame, st *State, i *ssa.Next, reach Term) Val {
 		}
 	}
 	return out
+}
+
+// subLit: a - b on 64-bit terms, folded when both are literals or b is zero.
+func subLit(a, b Term) Term {
+	if bv, ok := bvLitValue(b); ok {
+		if bv == 0 {
+			return a
+		}
+		if av, ok := bvLitValue(a); ok && av >= bv {
+			return BVLit(av-bv, 64)
+		}
+	}
+	return Op("bvsub", SBV(64), a, b)
 }
